@@ -320,6 +320,13 @@ def install_sympy_models(I, W):
         body = args[0]
         if body is not W.exprs:
             raise Unsupported("cse on something else than the block's statements")
+        # premise of D-cse: the temporaries handed to cse are plain, assumption-free symbols named _t<i>
+        # (sympy rewrites sign-sensitive functions of symbols that carry assumptions such as positive=True)
+        tmpl = kw.get("symbols")
+        if isinstance(tmpl, GenV):
+            tmpl = tmpl._seq
+        ok = isinstance(tmpl, PlainTemporaries)
+        I2.path.oblige(f"{I2.path.ghost.get('site', 'cse')}.cse_temporaries_are_plain_symbols", z3.BoolVal(ok), note="cse(symbols=...) must be (Symbol(f'_t{i}') for i in count()) without assumptions")
         repl = SSeq(wrap(W.p), lambda i: (SymV(W.t_f(i)), ExprV(W.rhs_f(i))), "cse_replacements")
         repl.pvc_type = "list"
         red = SSeq(SInt(W.q), lambda j: ExprV(W.red_f(j)), "cse_reduced")
@@ -344,7 +351,50 @@ def install_sympy_models(I, W):
     M.froms[("sympy", "cse")] = Builtin("sympy.cse", m_cse)
     M.froms[("sympy", "simplify")] = Builtin("sympy.simplify", m_simplify)
     M.froms[("sympy.utilities.lambdify", "lambdify")] = Builtin("lambdify", m_lambdify)
-    M.froms[("itertools", "count")] = Builtin("count", lambda I2, a, k: GenV(PyList([])))
+    M.froms[("itertools", "count")] = Builtin("count", lambda I2, a, k: CountV())
+
+    from pvc.models import TypeV
+
+    class SymbolType(TypeV):
+        def pvc_call(self, I2, args, kw):
+            return SymbolCall(args, kw)
+
+    M.froms[("sympy", "Symbol")] = SymbolType("Symbol", lambda I2, v: isinstance(v, SymV))
+
+
+class CountV:
+    """itertools.count(): only as the source of the temporaries generator."""
+
+    def pvc_comprehension(self, I, gen, elt_thunk):
+        import ast as _ast
+
+        idx = SInt(I.path.fresh_int("tmp_i"))
+        from pvc.interp import Frame
+
+        fr = Frame(None, {}, I.frame)
+        fr.is_comp = True
+        fr.module = None
+        I.frames.append(fr)
+        try:
+            I.assign(gen.target, idx)
+            v = elt_thunk()
+        finally:
+            I.frames.pop()
+        plain = isinstance(v, SymbolCall) and not v.kw and len(v.args) == 1 and getattr(v.args[0], "parts", None) is not None and tuple(p for p in v.args[0].parts if isinstance(p, str)) == ("_t",) and any(p is idx for p in v.args[0].parts)
+        return PlainTemporaries() if plain and not gen.ifs else OtherTemporaries()
+
+
+class SymbolCall:
+    def __init__(self, args, kw):
+        self.args, self.kw = list(args), dict(kw)
+
+
+class PlainTemporaries:
+    pass
+
+
+class OtherTemporaries:
+    pass
 
 
 class ModelInit(Contract):
